@@ -238,6 +238,19 @@ impl Model {
     }
 }
 
+fn thorough() -> bool {
+    std::env::var("VERIF_WITNESS_DEPTH").map(|v| v == "thorough").unwrap_or(false)
+}
+fn seed() -> u64 {
+    std::env::var("VERIF_SEED").ok().and_then(|v| v.parse().ok()).unwrap_or(0)
+}
+fn next_rand(x: &mut u64) -> u64 {
+    // xorshift64*: deterministic sampling seeded by VERIF_SEED
+    *x ^= *x >> 12;
+    *x ^= *x << 25;
+    *x ^= *x >> 27;
+    x.wrapping_mul(0x2545F4914F6CDD1D)
+}
 fn esc(s: &str) -> String {
     s.replace('\\', "\\\\").replace('"', "\\\"")
 }
@@ -437,6 +450,31 @@ fn suite_pipeline() -> Option<String> {
                 }
                 r.store.stop();
             }
+        }
+    }
+    if thorough() {
+        // 3 middlewares: 4^9 verdict assignments, sampled (seeded), with random effect removal
+        let mut x = 0x9E3779B97F4A7C15u64 ^ seed().wrapping_add(1);
+        for reds in red_cfgs.iter() {
+            let r = rig(3, reds, 2);
+            for k in 0..4000usize {
+                let mut verdicts = vec![];
+                for _ in 0..3 {
+                    let mut h = [V::Continue; 3];
+                    for j in 0..3 {
+                        h[j] = VS[(next_rand(&mut x) % 4) as usize];
+                    }
+                    verdicts.push(h);
+                }
+                let remove: Vec<bool> = (0..3).map(|_| next_rand(&mut x) % 4 == 0).collect();
+                let m = Model { n_mw: 3, verdicts, remove, reducers: reds.clone(), n_subs: 2 };
+                let (s, a) = (100 + k as i64, 9);
+                if let Some((ob, exp, got)) = run_pipeline_case(&r, &m, s, a) {
+                    r.store.stop();
+                    return Some(found("pipeline", &ob, fmt_pipeline(&m, s, a), exp, got));
+                }
+            }
+            r.store.stop();
         }
     }
     None
@@ -651,7 +689,7 @@ fn run_channel_case(policy: char, cap: usize, n: usize, with_metrics: bool) -> O
 }
 fn suite_channel() -> Option<String> {
     for policy in ['B', 'O', 'L'] {
-        for cap in 1..=3usize {
+        for cap in 1..=(if thorough() { 6usize } else { 3usize }) {
             for n in 0..=(2 * cap + 2) {
                 for wm in [true, false] {
                     if let Some((ob, exp, got)) = run_channel_case(policy, cap, n, wm) {
@@ -736,7 +774,8 @@ fn suite_builder() -> Option<String> {
         seqs.push(x.to_string());
         for y in a.iter() {
             seqs.push(format!("{}{}", x, y));
-            for z in ['w', 'c', 'r', 'e'] {
+            let thirds: Vec<char> = if thorough() { a.clone() } else { vec!['w', 'c', 'r', 'e'] };
+            for z in thirds {
                 seqs.push(format!("{}{}{}", x, y, z));
             }
         }
@@ -783,7 +822,7 @@ fn run_selector_case(vals: &[i64]) -> Option<(String, String, String)> {
     None
 }
 fn suite_selector() -> Option<String> {
-    for len in 0..=5usize {
+    for len in 0..=(if thorough() { 8usize } else { 5usize }) {
         for code in 0..3usize.pow(len as u32) {
             let mut c = code;
             let vals: Vec<i64> = (0..len).map(|_| { let v = (c % 3) as i64; c /= 3; v }).collect();
